@@ -108,13 +108,13 @@ func ResolveFuncs(v ssa.Value) (fns []*ssa.Function, ok bool) {
 
 // Rendezvous describes the request hand-off between RPC handlers and the core loop.
 type Rendezvous struct {
-	Ctl        *types.Named    // SourceControl
-	ReqField   string          // chan func() field
-	ResField   string          // chan error field
-	Queue      *ssa.Function   // runLaterIfActive: the entry point handlers use (outermost wrapper)
-	Handoff    *ssa.Function   // the function that performs the send/receive on the channels (may equal Queue)
+	Ctl        *types.Named           // SourceControl
+	ReqField   string                 // chan func() field
+	ResField   string                 // chan error field
+	Queue      *ssa.Function          // runLaterIfActive: the entry point handlers use (outermost wrapper)
+	Handoff    *ssa.Function          // the function that performs the send/receive on the channels (may equal Queue)
 	Queues     map[*ssa.Function]bool // Handoff and its wrappers
-	Closures   []*ssa.Function // request closures (deduplicated, sorted by position)
+	Closures   []*ssa.Function        // request closures (deduplicated, sorted by position)
 	CallSites  []ssa.CallInstruction
 	ClosureOf  map[*ssa.Function]ssa.CallInstruction // closure -> one call site
 	Unresolved []ssa.CallInstruction                 // call sites whose argument could not be resolved
